@@ -37,6 +37,8 @@ pub enum WriteEv {
 pub struct ReadRec {
     pub iov_len: usize,
     pub got: usize,
+    /// room the connection offered for descriptors on this receive
+    pub fd_room: usize,
     pub nfds: usize,
     pub kind: u8, // 0 data, 1 eagain, 2 eintr, 3 eof, 4 errno
 }
@@ -55,6 +57,8 @@ pub struct Script {
     pub flush_calls: usize,
     /// sizes offered to each write call
     pub write_offers: Vec<usize>,
+    /// descriptor numbers actually handed to the connection
+    pub handed_fds: Vec<RawFd>,
 }
 
 #[derive(Clone)]
@@ -130,7 +134,7 @@ impl ScmSocket for ScriptedStream {
                 let n = want.max(1).min(iov_len).min(remaining);
                 if n == 0 {
                     // nothing to give (stream exhausted or no window): would-block
-                    s.read_log.push(ReadRec { iov_len, got: 0, nfds: 0, kind: 1 });
+                    s.read_log.push(ReadRec { iov_len, got: 0, fd_room: in_fds.len(), nfds: 0, kind: 1 });
                     return Err(errno::Error::new(libc::EAGAIN));
                 }
                 let pos = s.pos;
@@ -142,25 +146,27 @@ impl ScmSocket for ScriptedStream {
                 s.pos += n;
                 let k = fds.len().min(in_fds.len());
                 in_fds[..k].copy_from_slice(&fds[..k]);
-                s.read_log.push(ReadRec { iov_len, got: n, nfds: k, kind: 0 });
+                s.handed_fds.extend_from_slice(&fds[..k]);
+                s.read_log.push(ReadRec { iov_len, got: n, fd_room: in_fds.len(), nfds: k, kind: 0 });
                 Ok((n, k))
             }
             ReadEv::Eagain => {
-                s.read_log.push(ReadRec { iov_len, got: 0, nfds: 0, kind: 1 });
+                s.read_log.push(ReadRec { iov_len, got: 0, fd_room: in_fds.len(), nfds: 0, kind: 1 });
                 Err(errno::Error::new(libc::EAGAIN))
             }
             ReadEv::Eintr => {
-                s.read_log.push(ReadRec { iov_len, got: 0, nfds: 0, kind: 2 });
+                s.read_log.push(ReadRec { iov_len, got: 0, fd_room: in_fds.len(), nfds: 0, kind: 2 });
                 Err(errno::Error::new(libc::EINTR))
             }
             ReadEv::Eof { fds } => {
                 let k = fds.len().min(in_fds.len());
                 in_fds[..k].copy_from_slice(&fds[..k]);
-                s.read_log.push(ReadRec { iov_len, got: 0, nfds: k, kind: 3 });
+                s.handed_fds.extend_from_slice(&fds[..k]);
+                s.read_log.push(ReadRec { iov_len, got: 0, fd_room: in_fds.len(), nfds: k, kind: 3 });
                 Ok((0, k))
             }
             ReadEv::Errno(e) => {
-                s.read_log.push(ReadRec { iov_len, got: 0, nfds: 0, kind: 4 });
+                s.read_log.push(ReadRec { iov_len, got: 0, fd_room: in_fds.len(), nfds: 0, kind: 4 });
                 Err(errno::Error::new(e))
             }
         }
